@@ -413,3 +413,28 @@ def eod_watch(bt):
         yield found
     finally:
         c.StrategyBase.update = orig
+
+
+def carry_inputs_check(bt, root, spec):
+    """the carry a coupon-paying security accrues is computed from the frames that were SUPPLIED: every such security holds the
+    coupon column, the long-cost column and the short-cost column of its own name from the spec (each of the two cost frames on
+    its own: a one-sided schedule is common), or nothing where the spec supplies nothing"""
+    out = []
+    for m in root.members:
+        if not hasattr(m, "_coupon_income"):
+            continue
+        for attr, key in (("_cost_long", "cost_long"), ("_cost_short", "cost_short")):
+            col = (spec.get(key) or {}).get(m.name)
+            have = getattr(m, attr, None)
+            if col is None:
+                continue          # nothing supplied for this name on this side: whatever the security does with "nothing" is judged by the carry rows
+            if have is None:
+                out.append(("carry-input-dropped:" + key, "%s: the %s column supplied for it (%r ...) is not what the security uses (it uses none)"
+                            % (m.full_name, key, col[:3])))
+                continue
+            vals = [float(x) for x in list(getattr(have, "values", have))]
+            want = [float("nan") if x is None else float(x) for x in col]
+            tail = vals[-len(want):] if len(vals) >= len(want) else vals
+            if len(tail) != len(want) or any((a != b) and not (a != a and b != b) for a, b in zip(tail, want)):
+                out.append(("carry-input-differs:" + key, "%s: uses %s %r, supplied %r" % (m.full_name, key, tail[:4], want[:4])))
+    return out
